@@ -8,6 +8,7 @@ import (
 	"path/filepath"
 	"sort"
 	"strings"
+	"sync"
 )
 
 // seededSelfTest (thorough tier): every seeded variant under /verif/seeded/*/ whose meta.json names this property is
@@ -21,6 +22,14 @@ func seededSelfTest(prop, repo, verif string) any {
 		Note     string   `json:"note,omitempty"`
 	}
 	var out []res
+	var mu sync.Mutex
+	var wg sync.WaitGroup
+	sem := make(chan struct{}, 8) // variants analysed concurrently (each is a separate process of ~1 GB)
+	add := func(r res) {
+		mu.Lock()
+		out = append(out, r)
+		mu.Unlock()
+	}
 	metas, _ := filepath.Glob(filepath.Join(verif, "seeded", "*", "meta.json"))
 	sort.Strings(metas)
 	self, err := os.Executable()
@@ -63,20 +72,24 @@ func seededSelfTest(prop, repo, verif string) any {
 		name := filepath.Base(dir)
 		tmp, err := os.MkdirTemp("", "avfslint-seed-")
 		if err != nil {
-			out = append(out, res{Seed: name, Outcome: "skipped", Note: err.Error()})
+			add(res{Seed: name, Outcome: "skipped", Note: err.Error()})
 			continue
 		}
-		func() {
+		wg.Add(1)
+		sem <- struct{}{}
+		go func() {
+			defer wg.Done()
+			defer func() { <-sem }()
 			defer os.RemoveAll(tmp)
 			cp := exec.Command("rsync", "-a", "--exclude", ".git", repo+"/", tmp+"/")
 			if o, err := cp.CombinedOutput(); err != nil {
-				out = append(out, res{Seed: name, Outcome: "skipped", Note: "copy failed: " + string(o)})
+				add(res{Seed: name, Outcome: "skipped", Note: "copy failed: " + string(o)})
 				return
 			}
 			ap := exec.Command("git", "apply", "--whitespace=nowarn", filepath.Join(dir, "patch.diff"))
 			ap.Dir = tmp
 			if o, err := ap.CombinedOutput(); err != nil {
-				out = append(out, res{Seed: name, Outcome: "skipped", Note: "patch does not apply to the current tree: " + firstLines(string(o), 2)})
+				add(res{Seed: name, Outcome: "skipped", Note: "patch does not apply to the current tree: " + firstLines(string(o), 2)})
 				return
 			}
 			cmd := exec.Command(self, "-selftest-variant", "-property", prop, "-repo", tmp, "-verif", verif)
@@ -85,9 +98,9 @@ func seededSelfTest(prop, repo, verif string) any {
 			if err != nil || json.Unmarshal(lastLine(o), &obs) != nil {
 				// load failure etc. count as detection (the tool refuses to pass)
 				if strings.Contains(string(o), "VIOLATION") {
-					out = append(out, res{Seed: name, Outcome: "detected", Note: "analysis refused the tree: " + firstLines(string(o), 2)})
+					add(res{Seed: name, Outcome: "detected", Note: "analysis refused the tree: " + firstLines(string(o), 2)})
 				} else {
-					out = append(out, res{Seed: name, Outcome: "skipped", Note: fmt.Sprintf("analysis failed: %v", err)})
+					add(res{Seed: name, Outcome: "skipped", Note: fmt.Sprintf("analysis failed: %v", err)})
 				}
 				return
 			}
@@ -98,12 +111,14 @@ func seededSelfTest(prop, repo, verif string) any {
 				}
 			}
 			if len(nf) > 0 {
-				out = append(out, res{Seed: name, Outcome: "detected", Findings: nf})
+				add(res{Seed: name, Outcome: "detected", Findings: nf})
 			} else {
-				out = append(out, res{Seed: name, Outcome: "missed"})
+				add(res{Seed: name, Outcome: "missed"})
 			}
 		}()
 	}
+	wg.Wait()
+	sort.Slice(out, func(i, j int) bool { return out[i].Seed < out[j].Seed })
 	return out
 }
 
